@@ -72,7 +72,7 @@ def oracle(policy, actions, recs, snap):
             want_exc = {'e': 'KeyError', 'c': 'CancelledError'}.get(oc)
             if ep != want_exc:
                 bad.append(('c10:exception-prop', f'completed ended {oc} but .exception is {ep}'))
-            if oc == 'v' and rp != ('ok', ('value', completed)):
+            if oc == 'v' and rp != ('ok', TG.VALUES[completed % len(TG.VALUES)](completed)):
                 bad.append(('c10:result-prop', f'.result is {rp} for member {completed}'))
             if oc == 'n' and rp != ('ok', None):
                 bad.append(('c10:result-prop', f'.result is {rp} for a member that returned None'))
@@ -113,6 +113,18 @@ def oracle(policy, actions, recs, snap):
                 stop = True
             if stop and stopped_at is None:
                 stopped_at = idx
+                # on stopping, every member still running is cancelled (the group's first sweep
+                # reaches everything that existed before this step)
+                crs = {o for r in recs[:idx + 1] for o in r['obs'] if o.startswith('cr')}
+                before = [i for i in daemon if c09._spawned_by(i, idx, actions, recs, strict=True)]
+                missed = [i for i in before if i not in done and f'cr{i}' not in crs]
+                # (with a competing next_done caller the joiner may be starved instead: F12,
+                # judged by the hang clause below)
+                if missed and not body_raised and not yl \
+                        and not any(o.startswith('jx') for o in rec['obs']):
+                    bad.append(('c10:stop-does-not-cancel-rest',
+                                f'policy {policy}: step {idx} {a}: a stop condition holds but '
+                                f'members {missed} were not cancelled (log {log})'))
             group_cr = [o for o in rec['obs'] if o.startswith('cr')
                         and not (a[0] == 'X' and o == f'cr{a[1]}')]
             if group_cr and stopped_at is None and not body_raised and exited_at is None:
